@@ -55,6 +55,12 @@ func c14Cells(tier string) []Cell {
 		cells = append(cells, Cell{ID: c14Cell{Mode: "hash", Shard: sh, NShards: 4}.id()})
 	}
 
+	// transfers between processes that registered NOTHING (types hash 0 on both sides): a legitimate setup
+	// for caches of builtin values; each pairing in a fresh process
+	for _, p := range pairs {
+		cells = append(cells, Cell{ID: c14Cell{Mode: "hash0", Src: p[0], Dst: p[1]}.id()})
+	}
+
 	return cells
 }
 
@@ -494,6 +500,65 @@ func init() {
 	}
 }
 
+// transfer0: exporter and importer with an empty gob registry (no GobRegister at all in this process).
+func init() {
+	extraCmds["transfer0"] = func(args []string) {
+		src, dst := newXfer(args[0]), newXfer(args[1])
+		ctx := context.Background()
+		src.Put(ctx, []byte("k1"), 7)
+		src.Put(cache.WithTTL(ctx, time.Hour, false), []byte("k2"), 0)
+
+		if cache.GobTypesHash() != 0 {
+			fmt.Println("SKIP types hash is not zero in a process that registered nothing")
+			return
+		}
+
+		exp, imp := &cache.HTTPTransfer{}, &cache.HTTPTransfer{}
+		exp.AddCache("n", src.WDR())
+		imp.AddCache("n", dst.WDR())
+
+		tr := &inproc{h: exp.Export(), perturb: "none", cutAt: -1, failAt: -1}
+		imp.Transport = tr
+
+		if err := imp.Import(ctx, "http://exporter.invalid/export"); err != nil {
+			fmt.Println("FAIL Import returned", err)
+			return
+		}
+
+		want, _, _ := src.Snapshot()
+		got, _, _ := dst.Snapshot()
+
+		if msg := compareSnap("importer cache", want, got); msg != "" {
+			fmt.Printf("FAIL with an empty type registry on both sides (types hash 0 == 0) nothing/other was imported: %s; exporter answered %v\n", msg, tr.statuses)
+			return
+		}
+
+		fmt.Println("OK")
+	}
+}
+
+func c14Hash0(cc c14Cell, env *Env) CellResult {
+	res := CellResult{Exhaustive: true, Outcomes: map[string]int{}, Execs: 1, States: 1, Transitions: 3}
+	self, _ := os.Executable()
+
+	out, err := exec.Command(self, "transfer0", cc.Src, cc.Dst).CombinedOutput()
+	line := strings.TrimSpace(string(out))
+
+	switch {
+	case err != nil:
+		res.Violations = append(res.Violations, Violation{Signature: "C14 hash0 subprocess", Detail: err.Error() + ": " + line})
+	case strings.HasPrefix(line, "FAIL"):
+		res.Violations = append(res.Violations, Violation{Signature: fmt.Sprintf("C14 hash0 %s->%s nothing-imported-with-equal-zero-hash", cc.Src, cc.Dst), Detail: line})
+	case strings.HasPrefix(line, "SKIP"):
+		res.Exhaustive, res.CapHit = false, line
+	}
+
+	res.Outcomes["hash0 "+strings.Fields(line+" ?")[0]]++
+	res.Sample = map[string]interface{}{"pair": cc.Src + "->" + cc.Dst, "empty_type_registry": true, "result": line}
+
+	return res
+}
+
 func c14Hash(cc c14Cell, env *Env) CellResult {
 	res := CellResult{Exhaustive: true, Outcomes: map[string]int{}}
 	self, _ := os.Executable()
@@ -653,6 +718,8 @@ func c14Run(c Cell, env *Env) CellResult {
 		return c14Transfer(cc, env)
 	case "faults":
 		return c14Faults(cc, env)
+	case "hash0":
+		return c14Hash0(cc, env)
 	}
 
 	return c14Hash(cc, env)
